@@ -3,8 +3,12 @@ package e1front
 import (
 	"bytes"
 	"context"
+	"errors"
 	"fmt"
+	"net"
+	"os"
 	"reflect"
+	"slices"
 	"testing"
 	"testing/cryptotest"
 
@@ -31,6 +35,13 @@ type KeySetPlan struct {
 	// BadEnc: the hello is sealed to the target but carries an encapsulated
 	// key no X25519 key can use: never acceptable, whatever the list.
 	BadEnc int `json:"bad_enc,omitempty"`
+	// WrongOuterName: the hello is sealed to the target but its outer SNI is the
+	// public name of ANOTHER key of the pool: whenever the target key is held
+	// the hello must be refused (illegal_parameter), whatever else is held.
+	WrongOuterName bool `json:"wrong_outer_name,omitempty"`
+	// CtxEnds: the context of NewConn ends while the last octet of the hello is
+	// handed over (every third list).
+	CtxEnds bool `json:"ctx_ends,omitempty"`
 }
 
 func permLists(n int) [][]int {
@@ -67,7 +78,11 @@ func executeKeySet(t *testing.T, prop string, seed uint64, p *KeySetPlan) *core.
 		base.Expect = "reject"
 		base.Mutations = []Mutation{{Kind: "bad-enc", A: p.BadEnc - 1}}
 	}
-	never := p.Unlisted || p.BadEnc > 0
+	if p.WrongOuterName {
+		base.Expect = "abort"
+		base.Mutations = []Mutation{{Kind: "outer-sni-other", S: p.Others[0].PublicName}}
+	}
+	never := p.Unlisted || p.BadEnc > 0 || p.WrongOuterName
 	b, err := buildScript(seed, &base)
 	if err == errSkip {
 		res.Probe("scenario_skipped")
@@ -165,8 +180,33 @@ func executeKeySet(t *testing.T, prop string, seed uint64, p *KeySetPlan) *core.
 		sc.NoEOF = true
 		var conn *ech.Conn
 		var err error
-		if pk, m, s := core.Guard(func() { conn, err = ech.NewConn(context.Background(), sc, opts...) }); pk {
+		ctx, cancel := context.WithCancel(context.Background())
+		var tr net.Conn = sc
+		ctxEnded := p.CtxEnds && li%3 == 2
+		if ctxEnded {
+			tr = &cancelAtConn{ScriptConn: sc, at: len(b.outerRec), cancel: cancel}
+			res.Probe("context_ends_with_last_octet")
+		}
+		if pk, m, s := core.Guard(func() { conn, err = ech.NewConn(ctx, tr, opts...) }); pk {
+			cancel()
 			fail("panic", s+": "+normMsg(m), "NewConn")
+			continue
+		}
+		cancel()
+		if ctxEnded && err != nil && (errors.Is(err, context.Canceled) || errors.Is(err, os.ErrDeadlineExceeded)) {
+			continue // the context won: not a matter of keys
+		}
+		if p.WrongOuterName {
+			holdsTarget := slices.Contains(l, 0)
+			switch {
+			case holdsTarget && err == nil:
+				fail("acceptance-depends-on-other-keys", fmt.Sprintf("hello whose outer SNI is another key's public name: not refused (ECHAccepted=%v)", conn.ECHAccepted()), "")
+			case holdsTarget && !errors.Is(err, ech.ErrIllegalParameter):
+				fail("aborted-valid", "wrong error class for an outer SNI that is not the config's public name: "+normErr(err), "")
+			case !holdsTarget && (err != nil || conn.ECHAccepted()):
+				fail("acceptance-depends-on-other-keys", "hello to a key that is not held: err="+normErr(err), "")
+			}
+			log = append(log, fmt.Sprintf("%v wrong-outer-name %v", l, err != nil))
 			continue
 		}
 		if err != nil {
@@ -261,6 +301,8 @@ func genC09(seed uint64, idx int) *Plan {
 	if !k.Unlisted && idx%8 == 5 {
 		k.BadEnc = 1 + (idx/8)%4
 	}
+	k.CtxEnds = idx%2 == 0
+	wrongName := !k.Unlisted && k.BadEnc == 0 && idx%8 == 3
 	n := 1 + r.IntN(3)
 	for i := 0; i < n; i++ {
 		o := KeySpec{ID: byte(r.IntN(256)), PublicName: base.Target.PublicName, Suites: genSuites(r), KeySeed: int(r.Uint32()), Retry: true, OwnEncoder: r.IntN(3) == 0}
@@ -275,6 +317,13 @@ func genC09(seed uint64, idx int) *Plan {
 			o.PublicName = genPublicName(r)
 		}
 		k.Others = append(k.Others, o)
+	}
+	if wrongName {
+		k.WrongOuterName = true
+		k.Others[0].PublicName = "rotated." + base.Target.PublicName
+		if len(k.Others[0].PublicName) > 250 {
+			k.Others[0].PublicName = "other-front.example"
+		}
 	}
 	return &Plan{Kind: "keyset", Seed: seed, KeySet: k}
 }
@@ -297,4 +346,19 @@ func shrinkKeySet(p *Plan) []*Plan {
 		out = append(out, q)
 	}
 	return out
+}
+
+// cancelAtConn ends a context when the at-th octet of the input has been handed over.
+type cancelAtConn struct {
+	*simnet.ScriptConn
+	at     int
+	cancel func()
+}
+
+func (c *cancelAtConn) Read(p []byte) (int, error) {
+	n, err := c.ScriptConn.Read(p)
+	if c.ScriptConn.Pos() >= c.at {
+		c.cancel()
+	}
+	return n, err
 }
